@@ -8,7 +8,7 @@ PATCH="$(readlink -f "$1")"; shift
 if [ -n "$(git -C /repo status --porcelain --untracked-files=no)" ]; then echo "/repo has uncommitted changes, refusing"; exit 3; fi
 git -C /repo apply "$PATCH" || { echo "patch does not apply"; exit 3; }
 trap 'git -C /repo checkout -- . >/dev/null 2>&1' EXIT
-( cd /repo && CARGO_TARGET_DIR=/verif/target-mut/repo-tests cargo test --offline 2>&1 | grep -E "^test result|FAILED|^error" | head -5 )
+[ -n "${SKIP_TESTS:-}" ] || ( cd /repo && CARGO_TARGET_DIR=/verif/target-mut/repo-tests cargo test --offline 2>&1 | grep -E "^test result|FAILED|^error" | head -5 )
 export VMON_TARGET_DIR=target-mut
 export VMON_OUT_DIR="$(mktemp -d /dev/shm/vmon-mut.XXXXXX)"
 for p in "$@"; do
